@@ -86,6 +86,10 @@ WHITELIST = [
      {"self": {"lon": "float", "lat": "float", "hgt": "float"}}, "object[ECEFCoords]", {}),
     ("core/obs_coords.py", "ECEFCoords.toGeoCoords", "ECEFCoords_toGeoCoords",
      {"self": {"X": "float", "Y": "float", "Z": "float"}}, "object[GeoCoords]", {}),
+    ("core/obs_coords.py", "ECEFCoords.toENUCoords", "ECEFCoords_toENUCoords",
+     {"self": {"X": "float", "Y": "float", "Z": "float"}, "base": {"toECEFCoords()": "object[ECEFCoords]"}}, "object[ENUCoords]", {}),
+    ("core/obs_coords.py", "ENUCoords.toECEFCoords", "ENUCoords_toECEFCoords",
+     {"self": {"E": "float", "N": "float", "U": "float"}, "base": {"toECEFCoords()": "object[ECEFCoords]"}}, "object[ECEFCoords]", {}),
     ("core/raster.py", "Raster.getCell", "Raster_getCell",
      {"self": {"xmin": "float", "xmax": "float", "ymin": "float", "ymax": "float", "resolution": "tuple[float,float]",
                "nrow": "int", "ncol": "int"},
@@ -275,6 +279,8 @@ class FnTranslator:
         v = self.expr_s(e, env, binds)
         if v.ty == "S":
             bad(e, "a string where a value is needed (strings are only accepted as arguments of print)")
+        if isinstance(v.ty, tuple) and v.ty[0] == "Obj":
+            bad(e, "an object where a value is needed (an object can only be bound to a local name)")
         return v
 
     def expr_s(self, e, env, binds):
@@ -533,7 +539,34 @@ class FnTranslator:
             fields = self.records[f.value.id]
             if e.args or (f.attr + "()") not in fields:
                 bad(e, "method %s.%s is not declared as an accessor in the signature" % (f.value.id, f.attr))
-            return Val(ident(f.value.id + "_" + f.attr), fields[f.attr + "()"])
+            ft = fields[f.attr + "()"]
+            if isinstance(ft, tuple) and ft[0] == "Obj":
+                # an accessor declared to return an object: the tuple of its attributes (one parameter each)
+                cf = self.unit.ctor_fields(ft[1])
+                if cf is None:
+                    bad(e, "class %s has no constructor of the accepted form" % ft[1])
+                return Val("(" + ", ".join(ident(f.value.id + "_" + f.attr + "_" + g) for g in cf) + ")", ft)
+            return Val(ident(f.value.id + "_" + f.attr), ft)
+        # method of a LOCAL object, resolved statically by the class it was constructed with
+        if isinstance(f, ast.Attribute) and isinstance(f.value, ast.Name) and isinstance(env.get(f.value.id), tuple) \
+                and env[f.value.id][0] == "Obj":
+            x, cls = f.value.id, env[f.value.id][1]
+            callee = self.unit.lookup(cls + "." + f.attr, self)
+            if callee is None:
+                bad(e, "method %s.%s is not (or could not be) translated" % (cls, f.attr))
+            if e.args or list(callee.params) != ["self"] or "self" not in callee.records:
+                bad(e, "only argument-less translated methods can be called on a local object")
+            args = []
+            for fld, ft in callee.records["self"].items():
+                if (x + "." + fld) not in env or env[x + "." + fld] != ft:
+                    bad(e, "attribute %s.%s read by %s.%s is not available" % (x, fld, cls, f.attr))
+                args.append(ident(x + "_" + fld))
+            self.needs |= callee.needs
+            self.ofnat |= callee.ofnat
+            self.math |= callee.math
+            t = self.tmp()
+            binds.append((t, "(%s)" % " ".join([callee.lean] + [m for m in MATH_ORDER if m in callee.math] + args)))
+            return Val(t, callee.ret)
         # x.is_integer() on a float
         if isinstance(f, ast.Attribute) and f.attr == "is_integer" and not e.args:
             v = self.expr(f.value, env, binds)
@@ -724,6 +757,22 @@ class FnTranslator:
                     env2[x + "." + f] = "F"          # coordinates are floats
                     lets.append("let %s : α := %s" % (ident(x + "_" + f), self.as_float(a, v)))
                 return self.close(binds, ";\n".join(lets) + ";\n" + self.block(rest, env2, fresh - {x}))
+            if isinstance(tgt, ast.Name) and isinstance(s.value, ast.Call) and isinstance(s.value.func, ast.Attribute):
+                binds = []
+                v = self.expr_s(s.value, env, binds)
+                if isinstance(v.ty, tuple) and v.ty[0] == "Obj":
+                    x, cls = tgt.id, v.ty[1]
+                    fields = self.unit.ctor_fields(cls)
+                    if fields is None:
+                        bad(s, "class %s has no constructor of the accepted form" % cls)
+                    t = self.tmp()
+                    lets = ["let %s : (%s) := %s" % (t, " × ".join(["α"] * len(fields)), v.term)]
+                    env2 = {k: ty for k, ty in env.items() if not k.startswith(x + ".")}
+                    env2[x] = ("Obj", cls)
+                    for i, g in enumerate(fields):
+                        env2[x + "." + g] = "F"
+                        lets.append("let %s : α := %s" % (ident(x + "_" + g), tuple_proj(t, i, len(fields))))
+                    return self.close(binds, ";\n".join(lets) + ";\n" + self.block(rest, env2, fresh - {x}))
             if isinstance(tgt, ast.Name):
                 x = tgt.id
                 # list creation
@@ -829,7 +878,15 @@ class FnTranslator:
         for p, t in self.params.items():
             if p in self.records:
                 for f, ft in self.records[p].items():
-                    sig.append("(%s : %s)" % (ident(p + "_" + f.replace("()", "")), lean_ty(ft)))
+                    base = p + "_" + f.replace("()", "")
+                    if isinstance(ft, tuple) and ft[0] == "Obj":
+                        fields = self.unit.ctor_fields(ft[1])
+                        if fields is None:
+                            raise Unsupported("class %s has no constructor of the accepted form" % ft[1])
+                        for g in fields:
+                            sig.append("(%s : α)" % ident(base + "_" + g))
+                    else:
+                        sig.append("(%s : %s)" % (ident(base), lean_ty(ft)))
             else:
                 sig.append("(%s : %s)" % (ident(p), lean_ty(t)))
         if isinstance(self.ret, tuple) and self.ret[0] == "Obj":
